@@ -7,26 +7,26 @@ sys.path.insert(0, HERE)
 from props import PROPS
 
 LEVEL_TEXT = {
- "C01": "Exploration: the real decode is run on tens of thousands of (config, length, data, erasure set, presentation) cases under ASan+UBSan and compared byte-for-byte with the original; erasure sets are exhaustive for every flat-XOR table and every RS shape with small C(n,<=t). Right level because the property is a universally quantified input/output relation with a cheap exact oracle.",
+ "C01": "Exploration: the real decode is run on tens of thousands of (config, length, data, erasure set, presentation) cases under ASan+UBSan and compared byte-for-byte with the original; erasure sets are exhaustive for every flat-XOR table and every RS shape with small C(n,<=t). Right level because the property is a universally quantified input/output relation with a cheap exact oracle. Presentations vary order, duplicates (up to 120 pointers), alignment, read-only mappings, fragments stamped by older writer versions, a small-stack caller thread, eight values of the forced-check flag, a twin instance created under the other legacy-CRC setting, all three checksum types, explicit word sizes and the stand-in libshss (backend metadata); odd shards run beside a noise thread.",
  "C02": "Exploration with exhaustive sub-spaces: all 2^n fragment subsets for small codes plus the flat-XOR band hd<=|E|<=m, each also with duplicates and several destinations; oracle 'exact or error', crash isolation per case.",
- "C03": "Exploration: every destination (erased and available) for exhaustive/sampled erasure sets, byte comparison of all fragment_len bytes with the fragment kept from encode, out-of-range destinations must be refused.",
- "C04": "Exploration, exhaustive over the 496 generators: every entry against the closed form over table-free GF(2^16), every k-subset of rows for small n by the monitor's own elimination, parity bytes of the public encode against the model on three compilers/flavours.",
+ "C03": "Exploration: every destination (erased and available) for exhaustive/sampled erasure sets, byte comparison of all fragment_len bytes with the fragment kept from encode, out-of-range destinations must be refused. A supplied destination is also presented in three variants that differ from what the instance itself would write (payload byte, historical seal, checksum type) and must come back as supplied.",
+ "C04": "Exploration, exhaustive over the 496 generators: every entry against the closed form over table-free GF(2^16), every k-subset of rows for small n by the monitor's own elimination, parity bytes of the public encode against the model on three compilers/flavours. Payload sizes sweep every residue class of the region loops (2..34 bytes, neighbourhoods of 64/128/1024, > 64 KiB); data kinds include edge-value words.",
  "C05": "Exploration, exhaustive over tables x erasure sets: 38 live tables against a frozen validated golden copy, every |E|<hd decoded and reconstructed, SSE2 and portable builds, refusal of every unsupported (k,m,hd) in the box.",
  "C06": "Exploration: exhaustive (R,X) for all XOR tables and small RS shapes, sampled above; rank-based sufficiency oracle plus follow-up reconstruct restricted to the answer; output array guarded.",
- "C07": "Exploration: every byte of every emitted fragment against an independently written serializer (literal offsets, bitwise CRCs, model parity) across checksum types, legacy switch values and three build flavours; struct layout facts checked at run time.",
+ "C07": "Exploration: every byte of every emitted fragment against an independently written serializer (literal offsets, bitwise CRCs, model parity) across checksum types, legacy switch values and three build flavours; struct layout facts checked at run time. All three defined checksum types, explicit word sizes for every backend, the stand-in libshss with 32 bytes of backend metadata.",
  "C08": "Exploration: dense and windowed length sweeps, each length actually encoded so the queries are compared with what encode produces.",
- "C09": "Exploration: systematic header mutation (640 bit flips exhaustive per header, byte values, rewrites with/without re-sealing) against a raw-byte reference predicate, observed through all consuming APIs.",
- "C10": "Exploration: bitwise CRC models against stored checksums of encoded and reconstructed fragments, exhaustive single-bit payload flips for short payloads, legacy function on random buffers, all switch values.",
- "C11": "Exploration: native fragment vs field-swapped twin (twin builder has a KAT: golden LE header <-> golden BE header) compared field by field, with and without corruption.",
- "C12": "Exploration: cross product instances x foreign fragments x re-sealed single-field edits against the literal reference verdict for both validators.",
- "C13": "Exploration: table-driven invalid-argument cases for every entry point, one process-isolated case each, with pre-poisoned outputs and a conservation ledger; the (k,m) shape box is enumerated completely per backend.",
- "C14": "Exploration (bounded-exhaustive histories + random): history monitor against a set model, registry walked through the exported list, counter wrap forced via the exported counter, also on clang -O2.",
- "C15": "Exploration: page-protection monitor (inputs read-only, abutting PROT_NONE pages) over all consuming APIs plus output comparison across histories, live instances and threads.",
- "C16": "Exploration: random API histories under ASan+LSan and under the conservation ledger (library-allocated live blocks / dlopen balance return to baseline).",
- "C17": "Fault enumeration: every call position of every backend operation in a scripted workload is made to fail once at the plugin boundary; rc, ledger delta, registry and the next identical call are checked.",
- "C18": "Exploration: ThreadSanitizer on stress workloads plus directed pairwise interleavings at 19 yield points (tsan and asan builds), per-thread sequential oracles. Cannot enumerate all interleavings; reports 'held on N rounds / M distinct interleavings'.",
+ "C09": "Exploration: systematic header mutation (640 bit flips exhaustive per header, byte values, rewrites with/without re-sealing) against a raw-byte reference predicate, observed through all consuming APIs. Structured forgeries (byte-reversed / half / shifted checksums, partially swapped headers, version-gate edges) are enumerated deterministically.",
+ "C10": "Exploration: bitwise CRC models against stored checksums of encoded and reconstructed fragments, exhaustive single-bit payload flips for short payloads, legacy function on random buffers, all switch values. Includes headers whose stored mismatch flag is already set and the backend with backend metadata (checksum covers the payload only).",
+ "C11": "Exploration: native fragment vs field-swapped twin (twin builder has a KAT: golden LE header <-> golden BE header) compared field by field, with and without corruption. Writer versions on both sides of the 1.2.0 gate, 64-bit edge values of the original length, and the native answer against the header bytes.",
+ "C12": "Exploration: cross product instances x foreign fragments x re-sealed single-field edits against the literal reference verdict for both validators. Writer versions x byte order, and validation while the reader's legacy-CRC write switch is set.",
+ "C13": "Exploration: table-driven invalid-argument cases for every entry point, one process-isolated case each, with pre-poisoned outputs and a conservation ledger; the (k,m) shape box is enumerated completely per backend. The converse clause is exercised with 1..200 fragment pointers and five values of the forced-check flag on accepted instances.",
+ "C14": "Exploration (bounded-exhaustive histories + random): history monitor against a set model, registry walked through the exported list, counter wrap forced via the exported counter, also on clang -O2. Plus fault enumeration of create (every allocation site fails once) with one or two live siblings of the same backend.",
+ "C15": "Exploration: page-protection monitor (inputs read-only, abutting PROT_NONE pages) over all consuming APIs plus output comparison across histories, live instances and threads. Includes fragments stamped by older writer versions on the read-only pages.",
+ "C16": "Exploration: random API histories under ASan+LSan and under the conservation ledger (library-allocated live blocks / dlopen balance return to baseline). Plus allocation-failure enumeration: every allocation site of create/encode/16 decode-reconstruct variants/fragments_needed/validation fails once (forked child per site), foreign fragments between live instances, misaligned inputs.",
+ "C17": "Fault enumeration: every call position of every backend operation in a scripted workload is made to fail once at the plugin boundary; rc, ledger delta, registry and the next identical call are checked. 16 configurations (m > k, k = 1, k = m, k+m = 32, backend metadata), the backends' own init failures after instance churn, and every position of the reference libisal's matrix-inversion failpoint.",
+ "C18": "Exploration: ThreadSanitizer on stress workloads plus directed pairwise interleavings at 19 yield points (tsan and asan builds), per-thread sequential oracles. Cannot enumerate all interleavings; reports 'held on N rounds / M distinct interleavings'. Threads work on different stripe variants (content and length), are steered to the flat-XOR P-xor-Q triples, share input buffers, ask for multi-element fragments_needed lists and compare native/twin metadata.",
  "C19": "Exploration + fault positions: the codec monitors on both ISA-L adapters running on a clean-room libisal, success required iff the first k surviving rows are invertible; every injected inversion failure position.",
- "C20": "Exploration: survivor sets x damaged subsets x damage kinds under force_metadata_checks with the 'original iff valid fragments within tolerance, never other bytes' oracle.",
+ "C20": "Exploration: survivor sets x damaged subsets x damage kinds under force_metadata_checks with the 'original iff valid fragments within tolerance, never other bytes' oracle. Damaged duplicate copies of valid indexes, eight values of the flag, a reader instance created with another checksum type.",
 }
 TECH = {
  "C01": "reference-model monitor (round-trip comparator) under ASan/UBSan",
@@ -42,11 +42,11 @@ TECH = {
  "C11": "native-vs-twin metadata comparator",
  "C12": "validator verdict comparator vs literal reference",
  "C13": "invalid-argument table under ASan/UBSan + malloc/dlopen conservation ledger",
- "C14": "history + set-model monitor, registry walk, counter preset, gcc+clang",
+ "C14": "history + set-model monitor, registry walk, counter preset, gcc+clang; allocation-failure enumeration of create with live siblings",
  "C15": "page-protection monitor (read-only inputs, guard pages) + cross-history output comparison",
- "C16": "random histories under ASan+LeakSanitizer and conservation ledger",
- "C17": "failing-stub injection at the plugin boundary, every call position",
- "C18": "ThreadSanitizer stress + directed interleavings via guarded yield hooks",
+ "C16": "random histories under ASan+LeakSanitizer and conservation ledger + allocation-failure enumeration (malloc failpoint, forked cases)",
+ "C17": "failing-stub injection at the plugin boundary, natural init failures, libisal inversion failpoint: every call position",
+ "C18": "ThreadSanitizer stress (per-thread stripe variants, shared inputs) + directed interleavings via guarded yield hooks",
  "C19": "codec monitors on ISA-L adapters over clean-room libisal + inversion failpoint",
  "C20": "forced-check comparator (damaged subsets) under ASan/UBSan",
 }
@@ -67,7 +67,7 @@ def main():
             "replay_cmd_template": "python3 run/check.py replay {path}",
             "engine": "runtime-monitors",
             "level_claimed": {"category": sp["level"], "text": LEVEL_TEXT[pid], "design_ref": "DESIGN.md section 5 (%s)" % pid},
-            "level_note": "Trusted base: gcc/clang sanitizer runtimes, the reference models in ref/ (validated against Python KATs, zlib and two in-the-wild headers by setup_cmd), the clean-room libisal for ISA-L properties. Holds only for the executions produced; bounds are in the evidence file.",
+            "level_note": "Trusted base: gcc/clang sanitizer runtimes, the reference models in ref/ (validated against Python KATs, zlib and two in-the-wild headers by setup_cmd), the clean-room libisal for ISA-L properties and the stand-in libshss (backend with per-fragment metadata). Holds only for the executions produced; bounds are in the evidence file.",
             "technique": TECH[pid],
         })
     man = {
